@@ -127,7 +127,7 @@ func startFakeDNS(seed int64) *fakeDNS {
 func (s *fakeDNS) close() { s.uc.Close(); s.tl.Close() }
 
 type stressCounts struct {
-	mu                                        sync.Mutex
+	mu                                       sync.Mutex
 	sent, answered, once, idok, own, rcodeok int
 }
 
